@@ -21,6 +21,7 @@ LOCK_ASSUME = ["lease assumption (guard of `expire`): a record lapses only when 
 LOCK_TRUSTED = ["modelled, not verified: Go select / channel / sync/atomic semantics, the timeout dispatcher (its own properties are C12/C13), context cancellation",
                 "the harness Storage (GateStore) applies each call atomically to a one-record store when the scheduler releases it; goroutine-stack inspection (runtime.Stack) decides that a goroutine is parked on the token",
                 "C01Exec.handle_sound / replay_reach: every trace the driver accepts is a Lock.Step execution, so the theorems about Reach apply to every replayed state"]
+LOCK_RULE_RT = (" PLUS real-time scenarios on the real in-memory storage with lease 300 ms (thorough: more phases): holder holds 6 lease periods with a contender of another provider waiting {steady; a transient error injected on the k-th renewal CasByVersion, k=1..3 (thorough ..6)}; holder death at two phases of the renewal cycle (its renewals stop reaching the storage) -> contender must acquire within 3 leases; Unlock racing a due renewal -> at most one more renewal call, none successful; a failing scenario is re-run twice alone with a doubled lease and reported only if it fails both times (timing-flake filter)")
 LOCK_EXPL = {"C01": "C01.mutex (any N, any sharing, any interleaving, unbounded faults), holder_owns_record, locker_serialised, counter_exact; mutex_needs_timely_unlock is the kernel-checked KF-1 history",
              "C04": "C04.no_residue, token_exact, record_has_live_owner, no_deadlock, handoff, after_shutdown_no_acquire, fail_path_restores on fault-free runs",
              "C05": "C05.lease_chain_alive_partial (renewal chain never dies while held, under the stated timing assumption), renewal_dies_after_unlock_partial, dead_holder_released, lease_margin; reply_lost_breaks_chain = KF-3; the full-strength statements lease_chain_alive_full / renewal_dies_after_unlock_full are REFUTED in Lean (early-fire race; unbounded leftovers in an untimed model)"}
@@ -142,8 +143,9 @@ PROPS = {
         go_cmds=("seq", "conc"),
         conc=[dict(comp="lock", driver="locktrace", args=["-focus", "C05"],
                    decisive=lambda d: d["op"].startswith("mon C05"),
-                   ignore=lambda d: d["op"].startswith("mon ") and not d["op"].startswith("mon C05"))],
-        rule=LOCK_RULE,
+                   ignore=lambda d: d["op"].startswith("mon ") and not d["op"].startswith("mon C05")),
+              dict(comp="lockrt", driver="monitors", decisive=lambda d: d["op"].startswith("mon C05"))],
+        rule=LOCK_RULE + LOCK_RULE_RT,
         assumptions=LOCK_ASSUME,
         trusted=LOCK_TRUSTED,
         explanation=LOCK_EXPL["C05"],
